@@ -36,6 +36,8 @@ type fakeDocker struct {
 
 	containers []fakeContainer
 	listFail   bool
+	lateLast   bool // the last container starts after the first listing: the first ContainerList call does not show it, every later one does
+	lists      int
 	release    []int // completion order of the ContainerLogs calls (indices into containers)
 
 	mu       sync.Mutex
@@ -58,7 +60,14 @@ func (f *fakeDocker) ContainerList(ctx context.Context, opts apicontainer.ListOp
 		return nil, errListInjected
 	}
 	out := make([]types.Container, 0, len(f.containers))
-	for _, c := range f.containers {
+	f.mu.Lock()
+	f.lists++
+	hide := f.lateLast && f.lists == 1
+	f.mu.Unlock()
+	for ci, c := range f.containers {
+		if hide && ci == len(f.containers)-1 {
+			continue
+		}
 		tc := types.Container{
 			ID: unb64(c.ID), Image: unb64(c.Image), ImageID: unb64(c.ImageID), Command: unb64(c.Command),
 			State: unb64(c.State), Status: unb64(c.Status), Created: c.Created,
